@@ -143,3 +143,51 @@ func VerifC25ExpiryHeap() {
 	}
 	verifReach("end")
 }
+
+const c25ShapeMax = 7
+
+// VerifC25HeapShape: a heap filled with n items of arbitrary (symbolic) expiries — i.e. every heap layout n adds can
+// produce — then one arbitrary item removed (root, inner node, leaf, tail), then drained: every PopMin must return a
+// held item of minimal expiry. Covers removals whose replacement has to move up as well as down.
+func VerifC25HeapShape() {
+	n := verifParam("items", 6, c25ShapeMax)
+	eh := New[*c25Item](2)
+	var items [c25ShapeMax]*c25Item
+	var held [c25ShapeMax]bool
+	for i := 0; i < n; i++ {
+		items[i] = &c25Item{id: ids.ID{byte(i + 1), 0xdd}, exp: verifI64("exp")}
+		eh.Add(items[i])
+		held[i] = true
+	}
+	r := verifChoose("remove", n)
+	got, ok := eh.Remove(items[r].id)
+	if !ok {
+		verifFail("shape-remove-not-found")
+	}
+	if got != items[r] {
+		verifFail("shape-remove-returned-other-item")
+	}
+	held[r] = false
+	for left := n - 1; left > 0; left-- {
+		p, ok := eh.PopMin()
+		if !ok {
+			verifFail("shape-popmin-empty-too-early")
+		}
+		k := int(p.id[0]) - 1
+		if k < 0 || k >= n || !held[k] || p != items[k] {
+			verifFail("shape-popmin-returned-absent-item")
+		}
+		held[k] = false
+		for j := 0; j < n; j++ {
+			if held[j] {
+				if items[j].exp < p.exp {
+					verifFail("shape-popmin-not-minimal-after-remove")
+				}
+			}
+		}
+	}
+	if eh.Len() != 0 {
+		verifFail("shape-len-wrong")
+	}
+	verifReach("end")
+}
